@@ -53,6 +53,32 @@ fn vectors(t: &mut TraceOut) {
             let ok = (p == base && l == n && std::mem::size_of_val(&v) == n * std::mem::size_of::<Tracked>()) as u32;
             let ev = log_take();
             emit(t, "vec_as_slice", $name, n, json!({"ok": ok}), inp.clone(), sl, ev);
+            // the trait views of the same storage: Deref, AsRef<[T]>, Borrow<[T]>, iteration by reference
+            {
+                use std::borrow::{Borrow, BorrowMut};
+                macro_rules! view { ($how:expr, $s:expr) => {{
+                    log_clear();
+                    let (q, l2, seen) = { let s: &[Tracked] = $s; (s.as_ptr() as usize, s.len(), ids(s.iter())) };
+                    let ev = log_take();
+                    emit(t, "vec_as_slice", $name, n, json!({"ok": (q == p && l2 == n) as u32, "how": $how}), inp.clone(), seen, ev);
+                }}; }
+                view!("deref", &*v);
+                view!("as_ref", AsRef::<[Tracked]>::as_ref(&v));
+                view!("borrow", Borrow::<[Tracked]>::borrow(&v));
+                view!("as_mut", { let m: &mut [Tracked] = AsMut::<[Tracked]>::as_mut(&mut v); &*m });
+                view!("borrow_mut", { let m: &mut [Tracked] = BorrowMut::<[Tracked]>::borrow_mut(&mut v); &*m });
+                view!("deref_mut", { let m: &mut [Tracked] = &mut *v; &*m });
+                log_clear();
+                let mut seen = vec![]; let mut first = 0usize;
+                for (i, e) in (&v).into_iter().enumerate() { if i == 0 { first = e as *const Tracked as usize; } seen.push(e.id); }
+                let ev = log_take();
+                emit(t, "vec_as_slice", $name, n, json!({"ok": (first == p) as u32, "how": "ref_iter"}), inp.clone(), seen, ev);
+                log_clear();
+                let mut seen = vec![]; let mut first = 0usize;
+                for (i, e) in (&mut v).into_iter().enumerate() { if i == 0 { first = e as *const Tracked as usize; } seen.push(e.id); }
+                let ev = log_take();
+                emit(t, "vec_as_slice", $name, n, json!({"ok": (first == p) as u32, "how": "mut_iter"}), inp.clone(), seen, ev);
+            }
             log_clear();
             { let s = v.as_mut_slice(); let pm = s.as_mut_ptr() as usize; assert!(pm == p || true); for (i, e) in s.iter_mut().enumerate() { e.id = 101 + i as u32; } }
             let ev = log_take();
